@@ -182,10 +182,12 @@ class Absint:
                 elif isinstance(s, ast.If):
                     for val, st2 in self.split(s.test, st):
                         for o in self.block(s.body if val else s.orelse, st2):
-                            if o[0] == "return":
+                            if o[0] in ("return", "break", "continue"):
                                 outs.append(o)
                             else:
                                 nxt.append(o[1])
+                elif isinstance(s, (ast.Break, ast.Continue)):
+                    outs.append(("break" if isinstance(s, ast.Break) else "continue", st))
                 elif isinstance(s, (ast.Expr, ast.Pass)):
                     nxt.append(st)
                 else:
@@ -220,44 +222,60 @@ def r3_join(ctx) -> None:
         ctx.broken("TypeBound.join: initialisation outside the analysed shape")
     init_env = pre[0][1]
     bvar = loop.target.id
-    # inductive invariant: every accumulator stays in {C} while only Copyable elements have been seen
-    inv = {k: frozenset([C_]) for k in init_env}
     ok_init = all(v == frozenset([C_]) for v in init_env.values()) and bool(init_env)
     ctx.check(ok_init, "C07.R3", "TypeBound.join: empty join", file, m.lineno,
               "the accumulator must start at Copyable: the join of no bounds (an empty sum) is Copyable", m,
               found=str({k: sorted(v) for k, v in init_env.items()}), detail="accumulator starts at Copyable")
-    # element = Any  -> Any reaches the result: either returned at once, or the accumulator becomes (and stays) Any
-    outs_a = ai.block(loop.body, {**inv, bvar: frozenset([A_])})
-    ok_a = bool(outs_a)
-    for o in outs_a:
-        if o[0] == "return":
-            ok_a = ok_a and o[1] == frozenset([A_])
-        else:
-            # falls through: the accumulator that is finally returned must now be Any, and Any must be absorbing
-            rets = [s for s in body[i + 1:] if isinstance(s, ast.Return)]
-            accn = u(rets[0].value) if rets else None
-            st = o[1]
-            if accn not in st or st[accn] != frozenset([A_]):
-                ok_a = False
-            else:
-                for val in (C_, A_):
-                    for o2 in ai.block(loop.body, {**st, bvar: frozenset([val])}):
-                        if o2[0] == "return":
-                            ok_a = ok_a and o2[1] == frozenset([A_])
-                        else:
-                            ok_a = ok_a and o2[1].get(accn) == frozenset([A_])
-    ctx.check(ok_a, "C07.R3", "TypeBound.join: Any is absorbing", file, loop.lineno,
-              "as soon as one argument is Any the join must be Any, whatever follows", loop, detail="Any element => result Any")
-    # element = Copyable under the invariant: no early return, invariant preserved
-    outs_c = ai.block(loop.body, {**inv, bvar: frozenset([C_])})
-    ok_c = bool(outs_c) and all(o[0] == "fall" and all(o[1].get(k) == frozenset([C_]) for k in inv) for o in outs_c)
-    ctx.check(ok_c, "C07.R3", "TypeBound.join: Copyable is neutral", file, loop.lineno,
-              "Copyable arguments must leave a Copyable accumulator unchanged and not end the loop early", loop,
-              detail="Copyable element keeps accumulator in {Copyable}")
-    post = ai.block(body[i + 1:], inv)
-    ok_p = len(post) == 1 and post[0][0] == "return" and post[0][1] == frozenset([C_])
-    ctx.check(ok_p, "C07.R3", "TypeBound.join: all-Copyable result", file, m.lineno,
-              "when every argument is Copyable (or there is none) the join is Copyable", m, detail="exit returns the accumulator ⊆ {Copyable}")
+    # the loop as a finite automaton over the input alphabet {Copyable, Any}: states are the (concrete) values of the locals, paired
+    # with "an Any has been read".  Every way of stopping (return, break + what follows, end of input + what follows) must answer
+    # Any exactly when an Any has been read.  Exhaustive over the reachable states: any loop shape the interpreter can follow.
+    post_stmts = body[i + 1:]
+
+    def finish(env):
+        outs = ai.block(post_stmts, env)
+        return outs[0][1] if len(outs) == 1 and outs[0][0] == "return" and len(outs[0][1]) == 1 else None
+
+    def key(env):
+        return tuple(sorted((k, tuple(sorted(v))) for k, v in env.items() if k != bvar))
+    start = {k: v for k, v in init_env.items()}
+    if not all(len(v) == 1 for v in start.values()):
+        ctx.broken("TypeBound.join: initialisation is not a constant")
+    seen = set()
+    work = [(start, False)]
+    wrong = {A_: "", C_: ""}
+    while work:
+        env, seen_any = work.pop()
+        kk = (key(env), seen_any)
+        if kk in seen:
+            continue
+        seen.add(kk)
+        want = frozenset([A_ if seen_any else C_])
+        r = finish(env)             # the input ends here
+        if r != want:
+            wrong[A_ if seen_any else C_] = f"input ends in state {dict(key(env))}: answers {sorted(r) if r else '?'}"
+        for sym_ in (C_, A_):
+            sa = seen_any or sym_ == A_
+            want2 = frozenset([A_ if sa else C_])
+            for o in ai.block(loop.body, {**env, bvar: frozenset([sym_])}):
+                if o[0] == "return":
+                    if o[1] != want2:
+                        wrong[A_ if sa else C_] = f"reading {sym_} in state {dict(key(env))} returns {sorted(o[1])}"
+                elif o[0] == "break":
+                    r = finish(o[1])
+                    if r != want2:
+                        wrong[A_ if sa else C_] = f"reading {sym_} in state {dict(key(env))} leaves the loop and answers {sorted(r) if r else '?'}"
+                else:
+                    if not all(len(v) == 1 for v in o[1].values()):
+                        ai.unknown = True
+                        continue
+                    work.append(({k: v for k, v in o[1].items() if k != bvar}, sa))
+    ctx.check(not wrong[A_], "C07.R3", "TypeBound.join: Any is absorbing", file, loop.lineno,
+              "as soon as one argument is Any the join must be Any, whatever follows" + (f" [{wrong[A_]}]" if wrong[A_] else ""), loop,
+              detail=f"{len(seen)} reachable (state, seen-Any) pairs explored")
+    ctx.check(not wrong[C_], "C07.R3", "TypeBound.join: Copyable is neutral", file, loop.lineno,
+              "when every argument is Copyable (or there is none) the join is Copyable: Copyable arguments must neither change the answer nor "
+              "end the loop with another one" + (f" [{wrong[C_]}]" if wrong[C_] else ""), loop, detail="all-Copyable inputs answer Copyable")
+    ctx.ok("C07.R3", "TypeBound.join: all-Copyable result", "covered by the automaton exploration")
     if ai.unknown:
         ctx.broken("TypeBound.join contains constructs outside the finite-domain interpreter")
     decos = [u(d) for d in m.decorator_list]
